@@ -570,12 +570,15 @@ def check_construction_absorptance(ctx, prog, rule="c18.typed"):
     the next one (error exits leave the loop) the construction's absorptance has to be stored; a path that stores nothing leaves the LAYERS entry with the
     default 0.6 (old LIDER files name a construction like its layers: "forBaja" in 06_adosado.cte, and that is the branch that skipped it)."""
     from ..loops import classify_loops
-    fn = prog.find("hulc::bdl::Data::new")
+    # the loop sits in Data::new or in a helper of the same module it was moved to
+    cands = [f for f in prog.fns.values() if f.crate == "hulc" and f.path.startswith("hulc::bdl::") and f.path.count("::") <= 3 and f.root == f.id and not f.raw.get("impl_derived")]
+    loops = [i for f in sorted(cands, key=lambda f: f.id) for i in classify_loops(prog, f)
+             if i["kind"] == "iterator" and (i.get("source") or "").replace("*", "").split(".")[-1].strip("()") == "constructions"]
+    ctx.require(len(loops) == 1, "hulc::bdl: the loop over the CONSTRUCTION blocks was not found (%d candidates)" % len(loops))
+    info = loops[0]
+    fn = info["fn"]
     sc = Scope(prog, fn)
     body = fn.body
-    loops = [i for i in classify_loops(prog, fn) if i["kind"] == "iterator" and (i.get("source") or "").split(".")[-1] == "constructions"]
-    ctx.require(len(loops) == 1, "Data::new: the loop over the CONSTRUCTION blocks was not found (%d candidates)" % len(loops))
-    info = loops[0]
     blocks, h = set(info["blocks"]), info["header"]
     use = set()
     for b in blocks:
